@@ -543,3 +543,42 @@ def eval_combinators(body, op, subst, _depth=0):
             return eval_combinators(body, cs.args[1], subst, _depth + 1)
         return "unknown"
     return "unknown"
+
+
+# ------------------------------------------------------------------------------------------
+# small-function path enumeration
+# ------------------------------------------------------------------------------------------
+
+
+def enumerate_paths(body, limit=4000, max_len=200):
+    """all acyclic normal paths entry -> return as lists of (bb, edge_label_to_next | None)"""
+    out = []
+    stack = [(0, [])]
+    while stack:
+        bb, path = stack.pop()
+        if len(out) > limit:
+            return None
+        if any(p[0] == bb for p in path) or len(path) > max_len:
+            continue
+        t = body.blocks[bb]["term"]["t"]
+        if t == "return":
+            out.append(path + [(bb, None)])
+            continue
+        for tgt, lab in body.succ_edges(bb):
+            stack.append((tgt, path + [(bb, (tgt, lab))]))
+    return out
+
+
+def field_cmp(body, rv):
+    """for `Eq/Ne/Lt..(a, b)` over two field reads: (op, fieldA, rootA, fieldB, rootB)"""
+    if rv["r"] != "bin":
+        return None
+
+    def side(op):
+        for root, path in body.resolve(op):
+            flds = [p[1:] for p in path if p.startswith(".") and not p[1:].isdigit()]
+            return (flds[-1] if flds else None, root)
+        return (None, None)
+
+    a, b = side(rv["a"]), side(rv["b"])
+    return (rv["op"], a[0], a[1], b[0], b[1])
